@@ -228,7 +228,6 @@ impl FromView for CommonHeader {
     type ViewType = ScionHeaderView;
     #[inline]
     fn from_view(view: &Self::ViewType) -> Self {
-        debug_assert!(view.version() == Self::VERSION, "Unsupported SCION version");
         CommonHeader {
             traffic_class: view.traffic_class(),
             flow_id: view.flow_id(),
